@@ -99,6 +99,15 @@ def t3(rep, tier, seed):
         cases.append(("unwritable-tee", ["--icsv", "--ojson", "tee", "/dev/full", good], None, None))
         cases.append(("unwritable-tee", ["--icsv", "--ojson", "cat", "then", "tee", "/dev/full", "then", "head", "-n", "1", good], None, None))
         cases.append(("unwritable-split", ["--icsv", "--ojson", "split", "-n", "2", "--prefix", os.path.join(nodir, "s"), good], None, None))
+        # one chunk / group file of a split that cannot be written (a symlink to /dev/full): first, middle, last
+        seven = os.path.join(base, "seven.csv")
+        open(seven, "wb").write(csv(7))
+        for mode, names in [(["-n", "2"], ["1", "2", "4"]), (["-m", "3"], ["1", "2", "3"]), (["-g", "a"], ["1", "4", "7"])]:
+            for nm in names:
+                d = os.path.join(base, "spl_" + mode[0].strip("-") + "_" + nm)
+                os.makedirs(d)
+                os.symlink("/dev/full", os.path.join(d, "sp_" + nm + ".csv"))
+                cases.append(("unwritable-split", ["--icsv", "--ocsv", "split"] + mode + ["--prefix", os.path.join(d, "sp"), seven], None, None))
         for stmt in ['tee > "/dev/full", $*', 'print > "/dev/full", $a', 'emit > "/dev/full", $*', 'dump > "/dev/full", $*', 'printn > "/dev/full", $a',
                      'emitf > "/dev/full", @x', 'tee > "' + nodir + '/".$a, $*', 'print | "exit 3", $a', 'tee | "false", $*']:
             pre = "@x = 1; " if "emitf" in stmt else ""
